@@ -79,11 +79,19 @@ def sexpr(t):
     return "(un %s %s)" % (t[1], sexpr(t[2]))
 
 
+def sci_text(t, parity):
+    """m e k; a non-negative exponent is written with an explicit '+' in one of the two renderings (which one alternates
+    with m+k), so that `1e3` and `1e+3` are both exercised and must both denote m*10^k"""
+    if t[2] >= 0 and (t[1] + t[2]) % 2 == parity:
+        return "%de+%d" % (t[1], t[2])
+    return "%de%d" % (t[1], t[2])
+
+
 def render_full(t):
     if t[0] == "lit":
         return str(t[1])
     if t[0] == "sci":
-        return "%de%d" % (t[1], t[2])
+        return sci_text(t, 1)
     if t[0] == "bin":
         return "(%s %s %s)" % (render_full(t[2]), BIN[t[1]], render_full(t[3]))
     if t[1] in UN_FUN:
@@ -94,7 +102,9 @@ def render_full(t):
 def render_min(t, ctx=0, right=False):
     """Minimal parentheses by the documented precedence (binary operators left-associative;
     a sign binds tighter than ^ and applies to a primary)."""
-    if t[0] in ("lit", "sci"):
+    if t[0] == "sci":
+        return sci_text(t, 0)
+    if t[0] == "lit":
         return render_full(t)
     if t[0] == "un":
         if t[1] in UN_FUN:
